@@ -23,14 +23,26 @@ def procedures(spec='DesyncImpl.tla'):
     return re.findall(r'^procedure (\w+)\(', text, re.M)
 
 
-def convert(lines):
+NPIPES = [0]
+
+
+def convert(lines, npipes=None):
+    if npipes is not None:
+        NPIPES[0] = npipes
+    return _convert(lines)
+
+
+def _convert(lines):
     """Harness NDJSON lines (one batch, one scenario) -> list of records for TLC"""
     out = []
     started, ended, rets = set(), set(), {}
+    pflags, pcnt = {}, {}
+    npipes = 0
     for line in lines:
         r = json.loads(line)
         if 'run' in r:
             started, ended, rets = set(), set(), {}
+            pflags, pcnt = {}, {}
             out.append({'kind': 'run', 'run': r['run']})
         elif 'end' in r:
             out.append({'kind': 'end', 'run': r['end'], 'clean': bool(r['clean'])})
@@ -42,11 +54,16 @@ def convert(lines):
                     ended.add(a)
                 elif kind == 'ret':
                     rets[a] = b
+                elif kind in ('in_end', 'in_dropped', 'closure_dropped', 'stream_dropped', 'out_end'):
+                    pflags.setdefault(a, set()).add(kind)
+                elif kind in ('proc_start', 'proc_end', 'out'):
+                    c = pcnt.setdefault(a, [0, 0, 0]); c[('proc_start', 'proc_end', 'out').index(kind)] += 1
             out.append({
                 'kind': 'step', 't': r['t'], 'op': r['op'], 'cls': r['cls'],
                 'q': [[QSTATE.match(s).group(1), n, w] for s, n, w in r['q']],
                 'sch': r['sch'], 'thr': list(r['thr']), 'max': r['max'],
                 'st': sorted(started), 'en': sorted(ended), 'rt': [[k, rets[k]] for k in sorted(rets)],
+                'pf': [sorted(pflags.get(p, set())) for p in range(1, NPIPES[0] + 1)], 'pc': [list(pcnt.get(p, [0, 0, 0])) for p in range(1, NPIPES[0] + 1)],
                 'obs': [[k, a, b] for k, a, b in r['obs']], 'fin': bool(r['fin']), 'tb': r['op'] in ('wait', 'join') or (r['op'] == 'park' and r['loc'].startswith('job_queue')),
             })
     return out
@@ -70,18 +87,20 @@ Tag(e) == IF e.op = "lock" THEN e.cls ELSE e.op
 ThrChars == [i \\in 1..Len(pthreads) |-> IF busyLocked[pthreads[i]] THEN "L" ELSE IF busy[pthreads[i]] THEN "B" ELSE "I"]
 SeqToSet(s) == {s[i] : i \\in 1..Len(s)}
 Match(e) == /\\ \\A o \\in Objs : e.q[o][1] = qstate[o] /\\ e.q[o][2] = Len(jobs[o]) /\\ e.q[o][3] = Len(wakeBlocked[o])
-             /\\ e.sch = schedule
+             /\\ e.sch = [i \\in 1..Len(schedule) |-> IF schedule[i] = Chute THEN 0 ELSE schedule[i]]
              /\\ e.thr = (IF thrHeld # "" THEN <<"?">> ELSE ThrChars)
              /\\ e.max = maxThreads
              /\\ SeqToSet(e.st) = {op \\in Ops : h.scnt[op] > 0}
              /\\ SeqToSet(e.en) = h.ended
              /\\ SeqToSet(e.rt) = {<<op, h.rets[op]>> : op \\in {x \\in Ops : h.rets[x] # NoRet}}
+             /\\ \\A p \\in Pipes : SeqToSet(e.pf[p]) = h.pflags[p] \\ {"late_event", "in_closed"} /\\ e.pc[p] = <<h.pproc[p], h.pfin[p], h.pout[p]>>
 QS == [o \\in Objs |-> <<qstate[o], Len(jobs[o])>>]
 PrevMatches == (l > 1 /\\ Rec[l - 1].kind = "step") => Match(Rec[l - 1])
-SilentPending == \\E p \\in Procs : pc[p] \\in SilentLabels
+IsSilent(p) == pc[p] \\in SilentLabels \\/ (atomic[p] /\\ pc[p] # "Done" /\\ ~(pc[p] = "st_dormant" /\\ thrHeld = p))
+SilentPending == \\E p \\in Procs : IsSilent(p)
 TraceInit == Init /\\ l \\in {i + 1 : i \\in {j \\in 1..Len(Rec) : Rec[j].kind = "run"}}
 TraceNext == \\/ /\\ SilentPending
-                /\\ \\E p \\in Procs : pc[p] \\in SilentLabels /\\ ProcStep(p)
+                /\\ \\E p \\in Procs : IsSilent(p) /\\ ProcStep(p)
                 /\\ l' = l
              \\/ /\\ ~SilentPending
                 /\\ l <= Len(Rec)
